@@ -258,6 +258,36 @@ def anderson_whitebox(ck, darsia):
         print("OBSERVATION (not a listed property): " + "; ".join(notes))
 
 
+def mg_levels(ck, darsia):
+    """Growth beyond the listed properties (spec/MGLevels.tla): extents of the multigrid levels.  For every (n, depth) of the
+    model the real restriction is applied depth+1 times and the prolongation once per level: the extents must be the model's."""
+    import numpy as np
+    ck.sany("MGLevels")
+    r = ck.model_check("MGLevels", "MGLevels.cfg", workers=1)
+    rows = [(p[1], p[2], list(p[3])) for p in r.printed("MGL")]
+    mg = darsia.MG(depth=1, smoother_iterations=1, maxiter=1, dim=2, mass_coeff=1.0, diffusion_coeff=1.0)
+    agree, empties = 0, 0
+    for n, d, L in rows:
+        x = np.zeros((n, 3))
+        got = [n]
+        ok = True
+        for _ in range(d + 1):
+            x = mg.restriction(x)
+            got.append(int(x.shape[0]))
+        # on the way up: prolongation doubles, the pad brings it to the extent of the level
+        for i in range(len(got) - 1, 0, -1):
+            up = mg.prolongation(np.zeros((got[i], max(1, 3 // 2 ** i)))).shape[0]
+            ok = ok and up == 2 * got[i] and 0 <= got[i - 1] - up <= 1
+        agree += int(got == L and ok)
+        empties += int(L[-1] == 0)
+    ck.cov["mg_levels"] = {"cases": len(rows), "implementation_matches_model": agree, "cases_with_empty_coarsest_level": empties}
+    if rows and agree == len(rows):
+        print(f"OBSERVATION (not a listed property): multigrid level extents follow MGLevels.tla on all {len(rows)} (extent, depth) pairs; "
+              f"in {empties} of them the coarsest level is empty (extent < 2^(depth+1)), i.e. the V-cycle recurses onto an empty array")
+    elif rows:
+        ck.note(f"MGLevels: restriction / prolongation follow the model on {agree} of {len(rows)} pairs (as-built model needs updating)")
+
+
 def run(ck, replay=None):
     ck.sany("JacobiImpl", "Stateless")
     r = ck.model_check("JacobiImpl", "JacobiImpl_fixed.cfg", workers=2)
@@ -265,7 +295,7 @@ def run(ck, replay=None):
     reg = ck.tlc("JacobiImpl", "JacobiImpl_asbuilt.cfg", workers=1, expect_ok=False, label="regression-model")
     if "DependsOnlyOnArguments" not in reg.violated:
         raise MachineryError("JacobiImpl no longer rejects the cached-diagonal rule (vacuity guard)")
-    import_darsia()
+    mg_levels(ck, import_darsia())
     rng = random.Random(ck.seed)
     quick = ck.tier == "quick"
     allkeys = sorted({k for v in ALPHABET.values() for k in v})
